@@ -96,6 +96,14 @@ func (vm *vm) suspend(ectx *execCtx, tryStackLen, iterStackLen, refStackLen uint
 func (vm *vm) resume(ctx *execCtx) {
 	vm.restoreCtx(&ctx.context)
 	sp := vm.sp
+	if delta := sp + 1 - vm.sb; delta != 0 {
+		// the frame is not where it was when the generator was suspended
+		for _, ref := range ctx.refStack {
+			if ref, ok := ref.(stackRef); ok {
+				ref.relocate((*[]Value)(&vm.stack), delta)
+			}
+		}
+	}
 	vm.sb = sp + 1
 	vm.stack.expand(sp + len(ctx.stack))
 	copy(vm.stack[sp:], ctx.stack)
@@ -147,6 +155,18 @@ func (r *stashRef) refname() unistring.String {
 	return r.n
 }
 
+// stackRef is implemented by references to a slot of the VM value stack: when a generator (or an async function)
+// is resumed its frame is copied to another place in the stack, and so must be moved any pending reference into it.
+type stackRef interface {
+	relocate(stack *[]Value, delta int)
+}
+
+func (r *stashRef) relocate(stack *[]Value, delta int) {
+	if r.v == stack {
+		r.idx += delta
+	}
+}
+
 type thisRef struct {
 	v   *[]Value
 	idx int
@@ -175,6 +195,12 @@ func (r *thisRef) init(v Value) {
 
 func (r *thisRef) refname() unistring.String {
 	return thisBindingName
+}
+
+func (r *thisRef) relocate(stack *[]Value, delta int) {
+	if r.v == stack {
+		r.idx += delta
+	}
 }
 
 type stashRefLex struct {
